@@ -24,6 +24,7 @@ using vio::Json;
 
 struct Hooks {
     long fwd_events = 0, bwd_events = 0;
+    long nan_fwd    = -1; // (op runx) the costs evaluated during forward sweep number nan_fwd are NaN: a candidate outside the domain of the cost
     long stop_eval  = -1;
     std::function<void()> stopper;
     void event() {
@@ -113,12 +114,14 @@ struct SOCP {
     }
     // ---- costs (h = xu)
     real_t eval_l(index_t t, crvec h) const {
+        if (H && H->nan_fwd >= 0 && H->fwd_events == H->nan_fwd + 1) return alpaqa::NaN<config_t>;
         real_t s = 0;
         for (index_t k = 0; k < nx + nu; ++k)
             s = s + (real_t(0.5) * w[k] * (h(k) - ref[k]) * (h(k) - ref[k]) + real_t(0.25) * w4[k] * h(k) * h(k) * h(k) * h(k));
         return tau(t) * s;
     }
     real_t eval_l_N(crvec h) const {
+        if (H && H->nan_fwd >= 0 && H->fwd_events == H->nan_fwd + 1) return alpaqa::NaN<config_t>;
         real_t s = 0;
         for (index_t k = 0; k < nx; ++k)
             s = s + (real_t(0.5) * wN[k] * (h(k) - refN[k]) * (h(k) - refN[k]) + real_t(0.25) * wN4[k] * h(k) * h(k) * h(k) * h(k));
@@ -217,7 +220,7 @@ int main() {
         Json j;
         j.s("op", op);
         try {
-            if (op != "run") {
+            if (op != "run" && op != "runx") {
                 std::fprintf(stderr, "unknown op %s\n", op.c_str());
                 return 3;
             }
@@ -251,6 +254,7 @@ int main() {
             H.stop_eval  = vio::ri();
             long stop_cb = vio::ri();
             long time0   = vio::ri();
+            if (op == "runx") H.nan_fwd = vio::ri();
             if (time0)
                 opts.max_time = std::chrono::nanoseconds(0);
             opts.check = true;
